@@ -103,7 +103,7 @@ void h_system_preorders(void)
 		/* ties exactly for equal names */
 		VASSERT((ab == 0) == (a->name[0] == b->name[0] && (a->name[0] == '\0' || a->name[1] == b->name[1])), "cmp_loom_id ties exactly on equal names");
 		/* ascending by the first differing byte (as unsigned char) */
-		VASSERT(!((unsigned char) a->name[0] < (unsigned char) b->name[0]) || ab < 0, "cmp_loom_id orders by name, ascending");
+		VASSERT(!((a->name[0] & 0xff) < (b->name[0] & 0xff)) || ab < 0, "cmp_loom_id orders by name, ascending");
 		if (ab < 0 && bc < 0) REACH("names strictly ascending");
 		if (ab == 0 && a->name[0] != '\0') REACH("equal non-empty names");
 	}
